@@ -10,7 +10,14 @@ Model of `middleware/compress.go` (`GzipWithConfig`, `gzipResponseWriter`), the 
       (it used to report the length of everything buffered so far),
 * F8  a `Flush` that forces compression marks the body as started, so the deferred finaliser
       closes the gzip stream instead of abandoning it,
-* F20 the same `Flush` drops a `Content-Length` set by the handler (only `WriteHeader` did).
+* F20 the same `Flush` drops a `Content-Length` set by the handler (only `WriteHeader` did),
+* F5  (property C06) `Response.Flush` commits the response first, exactly like `Response.Write`.
+
+Round 4 adds what surrounds the state machine: the constructors (`Gzip()`, `GzipWithConfig` with
+its "Defaults" block: `Level` 0 → -1, negative `MinLength` → 0), the `Skipper`, a compression
+level `gzip.NewWriterLevel` rejects (the pool then hands out an error: 500, handler not run), a
+handler that sets `Content-Encoding: gzip` itself, and a handler that RETURNS AN ERROR — the
+error handler then writes its response after the middleware has unwound (`ReqX`, `serveX`).
 
 What is abstract
 
@@ -180,11 +187,16 @@ def respWrite (s : St) (b : Bytes) : St × Nat :=
   | some w => grwWrite s w b
   | none => ({ s with raw := s.raw.write (.raw b) }, b.length)
 
-/-- `Response.Flush` -/
-def respFlush (s : St) : St :=
+/-- the flush proper, once `Response.Flush` has made sure the header call happened -/
+def writerFlush (s : St) : St :=
   match s.grw with
   | some w => grwFlush s w
   | none => { s with raw := s.raw.flush }
+
+/-- `Response.Flush`: commits first, like `Response.Write` (finding F5 of C06, repaired) -/
+def respFlush (s : St) : St :=
+  let s := if s.committed then s else respWriteHeader s (if s.status == 0 then 200 else s.status)
+  writerFlush s
 
 /-! ## handler programs -/
 
@@ -376,6 +388,122 @@ def serveNestedAll (minLength : Nat) : List Pool → List NReq → List Result
   | _, [] => []
   | ps, r :: rs => let (os, ps') := serveNested minLength ps r; os ++ serveNestedAll minLength ps' rs
 
+/-! ## configuration, constructors and what happens around the handler (round 4) -/
+
+/-- `GzipConfig` as far as it matters here (`Skipper` is per request: `ReqX.skip`) -/
+structure GzipConfig where
+  level : Int
+  minLength : Int
+deriving DecidableEq, Repr, Inhabited
+
+/-- `DefaultGzipConfig` -/
+def defaultGzipConfig : GzipConfig := ⟨-1, 0⟩
+
+/-- the "Defaults" block of `GzipWithConfig` -/
+def GzipConfig.normalise (c : GzipConfig) : GzipConfig :=
+  ⟨if c.level == 0 then -1 else c.level, if c.minLength < 0 then 0 else c.minLength⟩
+
+inductive Ctor where
+  | gzip                              -- `Gzip()`
+  | gzipWith (c : GzipConfig)         -- `GzipWithConfig(c)`
+deriving DecidableEq, Repr, Inhabited
+
+/-- the configuration the returned middleware works with -/
+def Ctor.config : Ctor → GzipConfig
+  | .gzip => defaultGzipConfig.normalise
+  | .gzipWith c => c.normalise
+
+/-- `gzip.NewWriterLevel` accepts `HuffmanOnly` (-2) … `BestCompression` (9) -/
+def levelValid (l : Int) : Bool := decide (-2 ≤ l) && decide (l ≤ 9)
+
+/-- a request and what surrounds its handler program -/
+structure ReqX where
+  rq : Req
+  skip : Bool := false            -- what `config.Skipper(c)` answers
+  presetCE : Bool := false        -- the handler sets `Content-Encoding: gzip` itself, first thing
+  fail : Option Nat := none       -- the handler returns `echo.NewHTTPError(code)` after its program
+deriving Repr, Inhabited
+
+/-- the body the application's `HTTPErrorHandler` renders for `code` (the harness installs one
+    that writes `E<code>`; like the default one it does nothing once the response is committed) -/
+def errBody (code : Nat) : Bytes := 69 :: (Nat.repr code).toList.map Char.toNat
+
+def errorHandler (s : St) (code : Nat) : St :=
+  if s.committed then s else (respWrite (respWriteHeader s code) (errBody code)).1
+
+/-- `e.ServeHTTP` after the middleware chain has returned -/
+def afterChain (s : St) : Option Nat → St
+  | none => s
+  | some code => errorHandler s code
+
+/-- one request through the middleware a constructor returned.  `before`/`after`: the handler's
+    ops before and after the request it serves from inside (both together are its program). -/
+def serveSplitX (cfg : GzipConfig) (pool : Pool) (x : ReqX) (before after : List Op) : Result × Pool :=
+  let h0 : Hdr := { ce := x.presetCE }
+  if x.skip then
+    let r1 := runProg { raw := { hdr := h0 } } before
+    let r2 := runProg r1.1 after
+    (⟨(afterChain r2.1 x.fail).raw.writeHeader 200, r1.2 ++ r2.2⟩, pool)
+  else
+  let raw : Raw := { hdr := { h0 with vary := true } }
+  if acceptsGzip x.rq.acceptEncoding then
+    if !levelValid cfg.level then
+      -- pool.Get() hands out the error of gzip.NewWriterLevel: HTTPError 500, the handler never runs
+      (⟨(errorHandler { raw := { hdr := { vary := true } } } 500).raw.writeHeader 200, []⟩, pool)
+    else
+    let gz := pool.gz.reset true
+    let buf : Bytes := (fun (_ : Bytes) => []) pool.buf
+    let w : Grw := { minLength := cfg.minLength.toNat, buffer := buf }
+    let s : St := { raw := raw, gz := gz, grw := some w }
+    let r1 := runProg s before
+    let r2 := runProg r1.1 after
+    match r2.1.grw with
+    | some w =>
+      let (s, pool') := finalise r2.1 w
+      (⟨(afterChain s x.fail).raw.writeHeader 200, r1.2 ++ r2.2⟩, pool')
+    | none => (⟨(afterChain r2.1 x.fail).raw.writeHeader 200, r1.2 ++ r2.2⟩, pool)
+  else
+    let s : St := { raw := raw }
+    let r1 := runProg s before
+    let r2 := runProg r1.1 after
+    (⟨(afterChain r2.1 x.fail).raw.writeHeader 200, r1.2 ++ r2.2⟩, pool)
+
+def serveX (cfg : GzipConfig) (pool : Pool) (x : ReqX) : Result × Pool :=
+  serveSplitX cfg pool x x.rq.prog []
+
+/-- does the request take a writer/buffer pair out of the pools (and put one back)? -/
+def usesPool (cfg : GzipConfig) (x : ReqX) : Bool :=
+  !x.skip && acceptsGzip x.rq.acceptEncoding && levelValid cfg.level
+
+def servePooledX (cfg : GzipConfig) (pools : List Pool) (x : ReqX) : Result × List Pool :=
+  if usesPool cfg x then
+    let (p, pools) := poolsGet pools
+    let (r, left) := serveX cfg p x
+    (r, left :: pools)
+  else ((serveX cfg {} x).1, pools)
+
+structure NReqX where
+  outer : ReqX
+  pos : Nat
+  inner : Option ReqX
+deriving Repr, Inhabited
+
+def serveNestedX (cfg : GzipConfig) (pools : List Pool) (rq : NReqX) : List Result × List Pool :=
+  let uses := usesPool cfg rq.outer
+  let (p, pools1) := if uses then poolsGet pools else ({}, pools)
+  -- a handler that never runs (pool error) serves no nested request
+  let ran := rq.outer.skip || !acceptsGzip rq.outer.rq.acceptEncoding || levelValid cfg.level
+  let (inner, pools2) :=
+    match rq.inner with
+    | none => ([], pools1)
+    | some irq => if ran then let (r, ps) := servePooledX cfg pools1 irq; ([r], ps) else ([], pools1)
+  let (r, left) := serveSplitX cfg p rq.outer (rq.outer.rq.prog.take rq.pos) (rq.outer.rq.prog.drop rq.pos)
+  (r :: inner, if uses then left :: pools2 else pools2)
+
+def serveNestedAllX (cfg : GzipConfig) : List Pool → List NReqX → List Result
+  | _, [] => []
+  | ps, r :: rs => let (os, ps') := serveNestedX cfg ps r; os ++ serveNestedAllX cfg ps' rs
+
 /-! ## reading the wire (client side) -/
 
 inductive Canon where
@@ -484,6 +612,29 @@ def decompressSeq : List Nat → List DReq → List DSeen
   | _, [] => []
   | p, r :: rs => let (os, p') := decompressReq p r; os ++ decompressSeq p' rs
 
+/-! ### Decompress: constructors and Skipper (round 4)
+
+`Decompress()`, `DecompressWithConfig(DecompressConfig{})` and every other way of filling the
+config produce the same middleware (the `Decompressor` interface has an unexported method, so the
+only pool an application can supply is `DefaultGzipDecompressPool`).  A request the `Skipper`
+excludes continues with `return next(c)` — the very statement a `Content-Encoding` other than
+`gzip` leads to — so it is modelled as a request without that header. -/
+
+def effCE (skip : Bool) (ce : List Char) : List Char := if skip then [] else ce
+
+structure DReqX where
+  skip : Bool
+  ce : List Char
+  body : Body
+  nested : Option (Bool × List Char × Body)
+deriving Repr, Inhabited
+
+def DReqX.eff (r : DReqX) : DReq :=
+  ⟨effCE r.skip r.ce, r.body, r.nested.map (fun n => (effCE n.1 n.2.1, n.2.2))⟩
+
+def decompressSeqX (pool : List Nat) (rs : List DReqX) : List DSeen :=
+  decompressSeq pool (rs.map DReqX.eff)
+
 /-! ## wire format -/
 open Wire
 
@@ -541,28 +692,61 @@ def pDReq : P DReq := do
   let n ← opt (do let ce ← str; let b ← pBody; pure (ce, b))
   pure ⟨ce, b, n⟩
 
+def pReqX : P ReqX := do
+  let skip ← bool
+  let pre ← bool
+  let fail ← opt nat
+  let rq ← pReq
+  pure ⟨rq, skip, pre, fail⟩
+
+def pNReqX : P NReqX := do
+  let outer ← pReqX
+  let inner ← opt (do let k ← nat; let r ← pReqX; pure (k, r))
+  match inner with
+  | none => pure ⟨outer, 0, none⟩
+  | some (k, r) => pure ⟨outer, k, some r⟩
+
+def pDReqX : P DReqX := do
+  let skip ← bool
+  let ce ← str
+  let b ← pBody
+  let n ← opt (do let sk ← bool; let ce ← str; let b ← pBody; pure (sk, ce, b))
+  pure ⟨skip, ce, b, n⟩
+
+def pInt : P Int := do
+  let neg ← bool
+  let n ← nat
+  pure (if neg then -(n : Int) else (n : Int))
+
+def pCtor : P Ctor := do
+  let plain ← bool
+  let level ← pInt
+  let m ← pInt
+  pure (if plain then .gzip else .gzipWith ⟨level, m⟩)
+
 inductive Line where
-  | gzip (minLength : Nat) (reqs : List NReq)
-  | decomp (reqs : List DReq)
+  | gzip (c : Ctor) (reqs : List NReqX)
+  | decomp (reqs : List DReqX)
 
 def pLine : P Line := do
   let k ← tok
   match k with
-  | "G" => do let m ← nat; let rs ← list pNReq; pure (.gzip m rs)
-  | "D" => do let rs ← list pDReq; pure (.decomp rs)
+  | "G" => do let c ← pCtor; let rs ← list pNReqX; pure (.gzip c rs)
+  | "D" => do let rs ← list pDReqX; pure (.decomp rs)
   | _ => failure
 
 /-- lines:
-    `G minLength nreq (acceptEncoding nops op* (0 | 1 at acceptEncoding nops op*))*` with ops
+    `G plain levelNeg level minLengthNeg minLength nreq (reqx (0 | 1 at reqx))*` where
+    `reqx = skip presetCE (0 | 1 failCode) acceptEncoding nops op*` with ops
     `L n | H code | W bytes | F | S code nchunks bytes* | T code bytes`; the optional part is a
     request the handler serves, nested, before its op number `at`
       → `nres (status ce cl? vary body nsnaps snap* nrets ret*)*`   (outer before nested)
-    `D nreq (contentEncoding body (0 | 1 contentEncoding body))*`, body = `P bytes | Z nmembers bytes* defect`
+    `D nreq (skip contentEncoding body (0 | 1 skip contentEncoding body))*`, body = `P bytes | Z nmembers bytes* defect`
       → `nres (ran (B bytes | U) err)*`                                (outer before nested) -/
 def runLine (line : String) : String :=
   match parseLine pLine line with
   | none => "bad-op"
-  | some (.gzip m rs) => render (encList encResult (serveNestedAll m [] rs))
-  | some (.decomp rs) => render (encList encDSeen (decompressSeq [] rs))
+  | some (.gzip c rs) => render (encList encResult (serveNestedAllX c.config [] rs))
+  | some (.decomp rs) => render (encList encDSeen (decompressSeqX [] rs))
 
 end C15
